@@ -319,3 +319,27 @@ func Sub(hs []History, n int, seed int64) []History {
 	}
 	return out
 }
+
+// WarmModel is the family of histories replayed through one long-lived handle:
+// two branches forking at a commit whose snapshot the handle has cached, with
+// data and vector operations on both sides of the fork.
+func WarmModel(quick bool) *AbsModel {
+	m := &AbsModel{
+		Name:  "lake_warm",
+		KeyOf: []int{1, 2, 3, 4}, NullKey: 9,
+		Batches:    [][]int{{1, 2}, {3, 4}},
+		Preds:      [][]int{{1}},
+		Branches:   []string{"main", "b1"},
+		ObjMode:    "single",
+		Dir:        "asc",
+		MaxOps:     4,
+		OpKinds:    []string{"load", "branch", "addvec", "delvec", "delete", "compact"},
+		Shape:      [][]string{{"load"}, {"branch"}, {"addvec", "delete", "delvec", "load"}, {"delvec", "addvec", "delete", "compact", "load"}},
+		Invariants: []string{"TypeOK", "Replayable", "ContentsEqualLive", "TipsReadable", "FailedUntouched"},
+	}
+	if !quick {
+		m.MaxOps = 5
+		m.Shape = append(m.Shape, []string{"delvec", "addvec", "delete", "compact", "load"})
+	}
+	return m
+}
